@@ -28,3 +28,84 @@ Example C13_nonvacuous :
   map ev_comp (sr_events (spec_run c 0 None [] fs)) = [true] /\
   dr_err (drive 100 [3] (new_reader (bytewise (wire fs) TEOF) 6 false false 0 true CbReadAll)) = RCompressionBit.
 Proof. vm_compute. repeat split; reflexivity. Qed.
+
+(* ------------------------------------------------------------------------------------
+   Last sentence of C13: "a compressed, fragmented, masked message written through the
+   writer stack is read back identically through the reader stack".
+   Writer model: coq/model/Writer.v (wsutil.Writer + wsflate.MessageState.SetBits as send
+   extension); reader model: coq/model/Reader.v (wsutil.Reader + MessageState.UnsetBits as
+   receive extension, canonical NextFrame/read-to-EOF loop [drive]).  [wf_key] (4 bytes,
+   each < 256) is defined in proofs/CipherProofs.v.
+
+   For EVERY message m (bytes; 2*(14+|m|) <= MaxInt64), opcode text or binary, compressed
+   flag c, writer buffer size n, writer side (client = StateClientSide|StateExtended = 6,
+   server = StateServerSide|StateExtended = 5), mask oracle (any list of 4-byte keys, the
+   zero key when exhausted), and for the message handed to the writer as ANY non-empty list
+   of Write calls whose concatenation is m, followed by one Flush (so: whatever the
+   fragmentation that the buffer size and the write pattern produce) —
+   for EVERY transport chunking s of the bytes the destination received, EVERY sequence of
+   caller buffer sizes, and fuel >= 6*|bytes|+8: the reader of the PEER side (server = 5
+   for a client writer, client = 6 for a server writer; header checks on, UTF-8 check off,
+   no size limit, MessageState attached, recording OnIntermediate) delivers exactly ONE
+   event — opcode op, payload m, not intermediate, compressed flag c — and then a clean
+   io.EOF with nothing left over. *)
+Require Import Writer CipherProofs RoundTripProofs.
+
+Theorem C13_writer_reader_roundtrip :
+  forall (client c : bool) (op n : N) (masks : list (list byte)) (pieces : list (list byte)) (m : list byte)
+         (w0 : writer) (obs : list wobs) (w' : writer) (s : src) (bufs : list N) (fuel : nat),
+  (op = 1 \/ op = 2) -> n + 14 <= 9223372036854775807 -> Forall wf_key masks ->
+  wf_bytes m -> 2 * (14 + len m) <= 9223372036854775807 ->
+  pieces <> [] -> concat pieces = m ->
+  new_writer_size (mkDest [] None) (if client then 6 else 5) op n masks = inr w0 ->
+  run_wops (map WWrite pieces ++ [WFlush]) (set_extensions [c] w0) = (obs, w') ->
+  let bytes := concat (dest_log (w_dest w')) in
+  wf_src s -> tl s = TEOF -> flat s = bytes ->
+  (6 * length bytes + 8 <= fuel)%nat ->
+  let d := drive fuel bufs (new_reader s (if client then 5 else 6) false false 0 true CbReadAll) in
+  dr_events d = [mkEv op m false c] /\ dr_err d = RIo EEOF /\ dr_partial d = [].
+Proof. exact writer_reader_roundtrip. Qed.
+Print Assumptions C13_writer_reader_roundtrip.
+
+(* the constructor hypothesis above is satisfiable for every positive size: NewWriterSize
+   never panics *)
+Theorem C13_new_writer_size_total : forall d state op n masks, 0 < n ->
+  exists w0, new_writer_size d state op n masks = inr w0.
+Proof. exact new_writer_size_ok. Qed.
+Print Assumptions C13_new_writer_size_total.
+
+(* the excluded case, no Write call at all: Flush sends nothing and the peer sees a clean
+   end of stream without any event (an EMPTY message is sent by Write([]) ; Flush and is
+   covered by the round-trip theorem with pieces = [[]]) *)
+Theorem C13_flush_without_write_sends_nothing :
+  forall (client c : bool) (op n : N) (masks : list (list byte)) (w0 : writer) (s : src) (bufs : list N) (fuel : nat),
+  new_writer_size (mkDest [] None) (if client then 6 else 5) op n masks = inr w0 ->
+  let w' := snd (run_wops [WFlush] (set_extensions [c] w0)) in
+  concat (dest_log (w_dest w')) = [] /\
+  (wf_src s -> tl s = TEOF -> flat s = [] -> (8 <= fuel)%nat ->
+   let d := drive fuel bufs (new_reader s (if client then 5 else 6) false false 0 true CbReadAll) in
+   dr_events d = [] /\ dr_err d = RIo EEOF /\ dr_partial d = []).
+Proof. exact writer_reader_nothing. Qed.
+Print Assumptions C13_flush_without_write_sends_nothing.
+
+(* a concrete instance of the round trip: client writer, buffer of 5, a compressed text
+   message of 13 bytes given as three Write calls leaves as three masked fragments of 5, 6
+   and 2 bytes in four destination writes (the middle one through WriteThrough: header and
+   payload separately; RSV1 on the first only) and comes back as one compressed message,
+   the transport delivering 3,1,7,... bytes at a time into caller buffers of 4 and 1 *)
+Example C13_roundtrip_instance :
+  let m := [104;101;108;108;111;44;32;119;111;114;108;100;33] in
+  match new_writer_size (mkDest [] None) 6 1 5 [[1;2;3;4]; [250;0;17;99]; [5;6;7;8]; [9;9;9;9]] with
+  | inr w0 =>
+    let '(_, w') := run_wops [WWrite (take 2 m); WWrite (take 9 (drop 2 m)); WWrite (drop 11 m); WFlush]
+                             (set_extensions [true] w0) in
+    let bytes := concat (dest_log (w_dest w')) in
+    let d := drive (6 * length bytes + 8) [4; 1]
+                   (new_reader (mkSrc (chunk_by [3; 1; 7] bytes) TEOF) 5 false false 0 true CbReadAll) in
+    length (dest_log (w_dest w')) = 4%nat /\
+    option_map (map (fun f => (h_fin (pf_header f), h_rsv (pf_header f), h_op (pf_header f), len (pf_payload f))))
+               (frames_of bytes) = Some [(false, 4, 1, 5); (false, 0, 0, 6); (true, 0, 0, 2)] /\
+    dr_events d = [mkEv 1 m false true] /\ dr_err d = RIo EEOF
+  | inl _ => False
+  end.
+Proof. vm_compute. repeat split; reflexivity. Qed.
